@@ -292,15 +292,15 @@ func (p *k11Proxy) close() {
 // cluster environment
 
 type k11Cluster struct {
-	c       *k11Case
-	e       *k11Env
-	leader  *k11Node
-	fol     []*k11Node
-	prox    []*k11Proxy
-	demoted   bool
+	c          *k11Case
+	e          *k11Env
+	leader     *k11Node
+	fol        []*k11Node
+	prox       []*k11Proxy
+	demoted    bool
 	deadlocked bool
 	abandon    bool // the leader is wedged: do not run its teardown
-	clockOnly bool // final phase: pending requests wait for their timeout only
+	clockOnly  bool // final phase: pending requests wait for their timeout only
 }
 
 const k11Watch = 4 * time.Second
@@ -564,7 +564,20 @@ func (cl *k11Cluster) step(op k11Op) string {
 				return inc
 			}
 			aliveBefore := cl.alive()
+			p.mu.Lock()
+			var released []string
+			for _, fr := range p.held {
+				released = append(released, k11AckId(fr))
+			}
+			p.mu.Unlock()
 			n := p.unstall(op.Mode)
+			if op.Mode != "drop" {
+				// the leader digests the released frames asynchronously: wait until each request they belong to is
+				// answered, unless (positive frames) it provably still lacks an acknowledgement of a stalled follower
+				if inc := cl.waitDigested(released, op.Mode == "negate"); inc != "" {
+					return inc
+				}
+			}
 			if op.Mode == "drop" {
 				// the leader must have noticed the cut before the next request is registered (else that request
 				// would wait for a follower that is gone - legitimate, but not what the next step wants to test)
@@ -746,6 +759,45 @@ func (cl *k11Cluster) waitAcksHeld(f int) string {
 	}
 }
 
+func (cl *k11Cluster) waitDigested(ids []string, negative bool) string {
+	e := cl.e
+	deadline := time.Now().Add(k11Watch)
+	for _, id := range ids {
+		for {
+			e.mu.Lock()
+			open := false
+			for _, r := range e.reqs {
+				if r.Op.K == "lock" && r.Op.Ack && r.Terminal < 0 && !r.doomed && r.State != k11Queued && fmt.Sprintf("%d/%x", r.Op.Key, r.LockId) == id {
+					open = true
+				}
+			}
+			e.mu.Unlock()
+			if !open {
+				break
+			}
+			if !negative {
+				got := 0
+				for _, p := range cl.prox {
+					p.mu.Lock()
+					got += p.positive[id]
+					p.mu.Unlock()
+				}
+				if got < k11Needed(cl.c.AckMode, cl.alive()) {
+					break // cannot complete yet
+				}
+			}
+			if cl.demoted {
+				break
+			}
+			if time.Now().After(deadline) {
+				return fmt.Sprintf("request of %s not answered within the watchdog after its acknowledgement frames were released\n%s", id, cl.proxyLogs())
+			}
+			time.Sleep(100 * time.Microsecond)
+		}
+	}
+	return ""
+}
+
 // followersAgree: after final quiescence every connected follower holds exactly the leader's holds.
 func (cl *k11Cluster) followersAgree() (viol string, inc string) {
 	e := cl.e
@@ -816,6 +868,7 @@ func k11RunCluster(c *k11Case, replay bool) (out k11Out) {
 	e := cl.e
 	if replay {
 		e.known = func(string) bool { return false }
+		e.knownSuffix = e.known
 	}
 	finish := func() {
 		e.mu.Lock()
